@@ -211,6 +211,21 @@ def check_composite(ctx, v):
                                 "weights and density: %r then %r" % (o, a, b), case)
     keep.verify("at the end of the sequence")
 
+    # a long contrast scan on the one calculator (hundreds of distinct weight vectors and densities), then the first
+    # points again: what the calculator answered early it answers late
+    if v.get("scan") and not zero and len(mats) >= 2:
+        base = np.array([float(x) for x in w], dtype=float)
+        firsts = []
+        for k in range(v["scan"]):
+            wk = base.copy()
+            wk[k % len(wk)] = base[k % len(wk)] * (1.0 + 0.01 * (k + 1))
+            rk = calc(wk, density=rho * (1.0 + 0.001 * (k % 5)))
+            if k < 3:
+                firsts.append((wk, rho * (1.0 + 0.001 * (k % 5)), [np.array(x, copy=True) for x in rk]))
+        ctx.count("long-scan-on-one-calculator", v["scan"])
+        for wk, rk_rho, then in firsts:
+            judge("an early point of a %d-point scan, asked again at the end" % v["scan"], mats, comps,
+                  calc(wk.copy(), density=rk_rho), wk, rk_rho, arg, shape, lams, dict(case, phase="scan-revisit"))
     # materials DERIVED from Formula objects that a calculator has already used (k*m, m+m', copies, pickle round
     # trips) are materials in their own right: a new calculator over them equals the direct calculation of THEIR sum
     der = v.get("derive")
@@ -280,6 +295,7 @@ def strat():
         "density": st.one_of(rho, rho, rho, rho, rho, rho, rho, rho, rho, rho, st.sampled_from([0, 0.0])),
         "wl": wl,
         "steps": st.lists(step, min_size=1, max_size=3),
+        "scan": st.sampled_from([None, None, None, None, None, 300, 600]),
         "derive": st.one_of(st.none(), st.lists(st.one_of(
             st.tuples(st.just("mul"), st.sampled_from([2, 3, 5, 0.5, 2.5, 10, 0.125])),
             st.tuples(st.just("mul"), st.sampled_from([2, 3, 5, 0.5, 2.5, 10, 0.125])),
